@@ -158,6 +158,8 @@ func classOfPanic(v any) string {
 		return "string"
 	case panicStruct:
 		return "struct"
+	case []string:
+		return "slice"
 	}
 	return fmt.Sprintf("other:%T", v)
 }
@@ -170,6 +172,8 @@ func panicValue(class string) any {
 		return "verif panic string"
 	case "struct":
 		return panicStruct{N: 7}
+	case "slice": // not comparable, not hashable
+		return []string{"verif", "panic", "slice"}
 	case "abort":
 		return http.ErrAbortHandler
 	case "wrapabort": // not the sentinel itself: must be recovered like any other value
@@ -190,7 +194,10 @@ func buildOpts(nodes []optNode, side string, log *layerLog, rl *recoverLog, rec 
 					rl.calls++
 					rl.seen = append(rl.seen, classOfPanic(v))
 					rl.mu.Unlock()
-					if c := classOfPanic(v); c == "string" || c == "struct" {
+					if c := classOfPanic(v); c == "struct" {
+						// ... or an error that wraps the function's coded error (errors.As finds it)
+						return fmt.Errorf("while recovering: %w", connect.NewError(connect.CodeDataLoss, errors.New("recovered")))
+					} else if c == "string" {
 						// what the function returns is the function's business: a coded error whose cause happens to
 						// be a context error must reach the client with the function's code
 						return connect.NewError(connect.CodeDataLoss, fmt.Errorf("recovered%w", ctxCause{}))
